@@ -195,6 +195,11 @@ def run(v, tier, seed):
                 v.violation({"what": f"a {kind} message is encoded with a line break inside", "kind": kind, "input": text, "encoded": bytes.fromhex(parts[1]).decode()})
         else:
             rejected += 1
+            if not malformed and y.startswith("ok") and sum(1 for r, ni in v.violations if not ni) < 3:
+                # a well-formed message of the protocol (the model decodes it, and its re-encoding is what the peers put on the wire)
+                # that the real decoder refuses: it does not survive encoding and decoding
+                v.violation({"what": f"a well-formed {kind} message is rejected by the decoder: what a peer encodes is not decoded back", "kind": kind, "input": text,
+                             "model_decodes_and_re_encodes_as": bytes.fromhex(y.split(" ")[1]).decode(), "impl": x, "engine": "codec"})
         if x != y:
             diffs += 1
             if diffs <= 3 and not v.violations:
